@@ -354,7 +354,13 @@ func runWatch(in input) (common.Case, error) {
 	ctx, cancel := context.WithCancel(context.Background())
 	done := make(chan error, 1)
 	go func() { done <- rl.Watch(ctx) }()
+	oksAtLastEdit := 0
 	for i, st := range in.Steps {
+		if i == len(in.Steps)-1 {
+			// taken before the last edit starts: a reload that completes after this point has seen,
+			// or will be followed by one that sees, the final content
+			_, oksAtLastEdit = fr.snapshot()
+		}
 		if st.Cfg != nil && in.HasCfg {
 			if err := os.WriteFile(cfgPath, []byte(*st.Cfg), 0o644); err != nil {
 				cancel()
@@ -380,7 +386,6 @@ func runWatch(in input) (common.Case, error) {
 			time.Sleep(time.Duration(5+7*(i%4)) * time.Millisecond)
 		}
 	}
-	_, oksAtLastEdit := fr.snapshot()
 	// wait for a successful reload after the last edit (generous: the machine may be loaded) ...
 	for dl := time.Now().Add(10 * time.Second); time.Now().Before(dl); {
 		if _, oks := fr.snapshot(); oks > oksAtLastEdit {
